@@ -23,10 +23,66 @@ PROOF_TARGETS = ["Props/C09.vo"]
 PROPS_FILE = "Props/C09.v"
 PROPS_MODULE = "Props.C09"
 
-RULE = ""
-ASSUMPTIONS = []
-TRUSTED = []
-MANIFEST = dict(text="", note="", technique="", design="4/C09")
+RULE = ("seeded generator of SOURCE FILES: a small musical chart on a beat grid (1..3 tempo points on measure lines / beats / half / "
+        "quarter / eighth beats, bpm from a float-exact family or arbitrary decimals, first tempo point at 0 ms or not, <= 9 hits and "
+        "long notes on grids 1/1..1/48 incl. triplets / fifths, an object exactly at beat 0, every key count the target game has) "
+        "rendered into each of the five formats' dialects (osu: integer / fractional / exact times, scroll velocities; Quaver: "
+        "integer times, scroll velocities; StepMania: 1..2 charts sharing the tempo list, rolls / mines / lifts / fakes / keysounds "
+        "besides the taps and holds; BMS: each of the five layouts, channel 03 and 08 tempo objects, header tempo replaced at 0/0, "
+        "LNOBJ long notes, #WAV tables; O2Jam: three difficulties, header tempo alone or a tempo event at position 0) x each of the 16 "
+        "source->target pairs (BMS targets: a random layout holding the key count, column shift 0/1; O2JToBMS with its default shift); "
+        "per pair 10 plain cases + 2 per finding-directed scenario (t0, sv_early, offline, topcol, cs, nohdr, sjis_wav, ev0, eighth, "
+        "bpm4, pad, nostops) + files from the generators of C01 / C06 / C07 for millisecond targets; the committed corpus (one minimal "
+        "file per known finding) runs first; one Coq term per written target (StepMania chart / O2Jam difficulty); non-trivial: the "
+        "source chart has at least one note; distinct by hash of the case")
+ASSUMPTIONS = [
+    "corr is the composition of the DENOTATIONS (source denotation -> what the target writer's rounding rule does to each time -> "
+    "target denotation), not of the reader / cast / writer models; only O2Jam -> Quaver is composed from the models, in the theorem",
+    "resolutions: osu / Quaver 1 ms; StepMania 1/96 beat; BMS 1/192 beat; O2Jam 0; beat resolutions in ms = beat length of the tempo "
+    "point in force at the SOURCE time t (largest of t, t +- one 1/96-beat step); the bound of a pair is the larger of the two + 1e-6 ms",
+    "the common timeline = taps and long notes (kind, column, start, end) + tempo points (time, bpm; of several at one time the last "
+    "counts); scroll velocities, key sounds, samples, metadata and StepMania's rolls / mines / lifts / fakes / keysounds are outside it "
+    "(SMTo* drops the latter silently)",
+    "composition domain (conv_ok, evaluated in Coq): key count the target game has, columns inside it (BMS: lanes of the layout), "
+    "objects of one column and tempo points further apart than twice the resolution, long notes longer than that on a grid format, "
+    "grid targets: positive tempo, nothing before the first tempo point, BMS: first tempo point at 0 ms (the format has no offset: "
+    "reamber then shifts the whole chart, stated as a domain guard as in C05); generator invariants not re-checked in Coq: "
+    "BMS measures < 1000, metadata encodable in shift_jis for BMS targets, no zero SV multiplier for osu targets",
+    "well-formed BMS target = DESIGN B.4's written form (valid lines, one object per measure/channel/position, denotes), not C04's "
+    "reader dialect (which forbids empty header values)",
+    "Quaver files cross the boundary as YAML trees (PyYAML is C06's oracle); OJN files as the abstract file whose bytes are "
+    "c07.build_bytes (C07 checks bytes = encode_file on every one of its cases)",
+    "binary64: source times are exact rationals of the FILE; int() of a float within 1e-6 of an integer may land on either side "
+    "(trunc_ok); tempo values compared to 1e-6 bpm",
+]
+TRUSTED = ["the reference interpreters of C01 / C02 / C04 / C06 / C07 (osu_denote, sm_denote, bms_denote, qua_denote, ojn_denote) as the "
+           "meaning of a file", "PyYAML (tree level), python struct (OJN bytes)",
+           "harness/props/c09.py diagnose(): decides which failing cases are listed findings (a failure is 'known' only when the "
+           "timelines agree once the listed cause is compensated)"]
+MANIFEST = dict(
+    text="End-to-end check of the documented pipeline B.write(AToB.convert(A.read(file))) for all 16 converters: generated source "
+         "FILES of the five formats (inside the domains of C01/C02/C04/C06/C07) are run through the real code and the two files are "
+         "judged inside Coq by the formats' reference interpreters (independent of reamber's readers): the written file is "
+         "well-formed in the target format and its timeline (notes: kind, column, start, end; tempo points) equals the source "
+         "file's to within the coarser of the two formats' resolutions at the local tempo (Formats/Timeline.v, Corr/RunC09.v); a "
+         "sharper correspondence relation (truncation toward zero / nearest snap, composed from the denotations) catches changes "
+         "that stay inside the resolution. Proved for all inputs (Props/C09.v, 29 closed theorems): the comparison is reflexive, "
+         "symmetric, triangular, monotone, order- and shift-invariant and the runner's oracle is sound for it; every adapter maps "
+         "the format's own 'same denotation' to 'same timeline'; and the END-TO-END statement for O2Jam -> Quaver by composing "
+         "C07's byte-level reader theorem, C08's cast exactness and C06's writer theorem, including that the converted chart lies "
+         "in the writer's domain; for the other 15 pairs the generic composition and the Quaver / O2Jam halves are proved and the "
+         "statement is named _partial with the missing whole-file theorem (C01, C02/C03, C04/C05) listed. The check found ten defect "
+         "classes of the pinned tree (26 pair:cause keys, each with a minimal file in corpus/C09 and three of them as _refuted "
+         "theorems on the real written files): StepMania #OFFSET not the first tempo point (OsuToSM, QuaToSM), reseated tempo "
+         "lists of StepMania / BMS sources, key count taken from the largest used column, SMToOsu CircleSize, BMS header / sample "
+         "name crashes, duplicate O2Jam tempo at 0 in BMS, two-decimal #BPMS beats, ':.3f' BMS tempos.",
+    note="Trusted: Coq kernel+VM, the reference interpreters of the component properties, generator / serialiser / diagnose() of "
+         "harness/props/c09.py, PyYAML and struct. corr is a composition of denotations, not of the component models (except in the "
+         "O2Jam -> Quaver theorem). Known findings are listed per pair in findings/C09.json and keep being generated; any other "
+         "violation raises. Not covered: scroll velocities and metadata through the pipeline (C08 checks the wiring), rolls / mines "
+         "dropped by SMTo*, BMS charts whose first tempo point is not at 0 ms (shifted by the writer; treated as outside the format).",
+    technique="Coq proof (composition of C06/C07/C08 theorems) + reference interpreters evaluated by vm_compute on the implementation's files",
+    design="4/C09, B")
 
 SOURCES = ["osu", "qua", "sm", "bms", "o2j"]
 TARGETS = ["osu", "qua", "sm", "bms"]
@@ -228,7 +284,7 @@ def render_qua(rng, ab, extras=True, sv_early=False):
         if extras and rng.random() < 0.3:
             svs.append({"StartTime": t + rng.choice([0, 250, 40]), "Multiplier": rng.choice([0.5, 2.0, 1.25])})
     if sv_early:
-        svs.insert(0, {"StartTime": tps[0]["StartTime"] - rng.choice([100, 1, 2500]), "Multiplier": 1.5})
+        svs.insert(0, {"StartTime": tps[0]["StartTime"] - rng.choice([100, 40, 2500]), "Multiplier": 1.5})
     for (c, b, ln) in ab["notes"]:
         t = int(_jit(rng, time_of(ab["t0"], ab["tempo"], b), "int"))
         rec = {"StartTime": t, "Lane": c + 1, "KeySounds": []}
@@ -1250,35 +1306,56 @@ def diagnose(case, out, k):
             return "o2j-tempo-at-0-duplicate"
         return None
     sh = case["shift"]
-    if match(stl, ttl, bound, shift=sh) is None:
-        return "?"                                       # python sees no mismatch (a corr-only failure): decided by the caller
     st, tt = norm_tempo(stl["tempo"]), norm_tempo(ttl["tempo"])
-    # ---- StepMania #OFFSET is not the first tempo point
-    if b == "sm" and st and tt and tt[0][0] != st[0][0]:
-        dt = tt[0][0] - st[0][0]
-        if match(stl, ttl, bound, shift=sh, dt=dt) is None:
-            return {"osu": "sm-offset-zero", "qua": "sm-offset-stack-min"}.get(a)
-    # ---- SMToOsu leaves CircleSize at 4
-    if a == "sm" and b == "osu" and case["keys"] != 4:
-        folded = {"notes": [(kd, min(c, 3), t, ln) for (kd, c, t, ln) in stl["notes"]], "tempo": stl["tempo"]}
-        if match(folded, ttl, bound) is None or (_tempo_off_line(case, k) and _notes_only(folded, ttl, bound)):
-            return "osu-circle-size-default"
+    if match(stl, ttl, bound, shift=sh) is None:
+        # python sees no violation of the property: a correspondence-only divergence.  Known ones: a defect below the
+        # resolution (an #OFFSET off by less than a step; the ':.3f' tempo table; a two-decimal tempo beat)
+        if b == "sm" and st and tt and tt[0][0] != st[0][0] and a in ("osu", "qua"):
+            return {"osu": "sm-offset-zero", "qua": "sm-offset-stack-min"}[a]
+        if b == "bms" and len(st) == len(tt) and any(v1 != v2 for (_, v1), (_, v2) in zip(st, tt)):
+            return "bms-bpm-3f-rounding"
+        if b == "sm" and _tempo_off_centibeat(st):
+            return "sm-bpms-beat-2dp"
+        return None
     # ---- O2Jam header tempo + tempo event at position 0, both written
     if a == "o2j" and b == "bms" and _o2j_event_at_0(case, k):
         return "o2j-tempo-at-0-duplicate"
-    # ---- reseated tempo list (tempo change off a measure line in a StepMania / BMS source): the notes are right
-    if a in ("sm", "bms") and _tempo_off_line(case, k) and _notes_only(stl, ttl, bound, sh):
-        return "tempo-reseated"
-    # ---- BMS ':.3f'
+    # ---- causes that can be compensated: the failure is a known one when the timelines agree once every cause PRESENT
+    #      in the case is compensated; the key is the first present cause
+    present = []
+    src, dt, bnd, notes_only = stl, 0, bound, False
+    if b == "sm" and st and tt and tt[0][0] != st[0][0] and a in ("osu", "qua"):
+        present.append({"osu": "sm-offset-zero", "qua": "sm-offset-stack-min"}[a])     # #OFFSET is not the first tempo point
+        dt = tt[0][0] - st[0][0]
+    if a == "sm" and b == "osu" and case["keys"] != 4:
+        present.append("osu-circle-size-default")                                       # SMToOsu leaves CircleSize at 4
+        src = {"notes": [(kd, min(c, 3), t, ln) for (kd, c, t, ln) in stl["notes"]], "tempo": stl["tempo"]}
+    if a in ("sm", "bms") and _tempo_off_line(case, k):
+        present.append("tempo-reseated")                                                # reseated tempo list: only the notes are right
+        notes_only = True
     if b == "bms" and len(st) == len(tt) and any(v1 != v2 for (_, v1), (_, v2) in zip(st, tt)) \
             and all(abs(v1 - v2) <= Fr(1, 1999) for (_, v1), (_, v2) in zip(st, tt)):
-        return "bms-bpm-3f-rounding"
-    # ---- StepMania tempo beats printed with two decimals
-    if b == "sm" and len(st) == len(tt) and len(st) > 1:
+        present.append("bms-bpm-3f-rounding")                                           # ':.3f' tempo table: drift
+        tmax = max([t + ln for (_, _, t, ln) in stl["notes"]] + [t for t, _ in st] + [Fr(0)])
+        drift = tmax * Fr(1, 1999) / min(v for _, v in st)
+        bnd0 = bnd
+        bnd = lambda t, f=bnd0, d=drift: f(t) + d
+        notes_only = notes_only or "relax-bpm"
+    if b == "sm" and len(st) > 1 and _tempo_off_centibeat(st):
+        present.append("sm-bpms-beat-2dp")                                              # tempo beats printed with two decimals
         slack = sum(Fr(1, 200) * abs(Fr(60000) / st[i][1] - Fr(60000) / st[i - 1][1]) for i in range(1, len(st)))
-        if match(stl, ttl, lambda t: bound(t) + slack, shift=sh) is None and _tempo_off_centibeat(st):
-            return "sm-bpms-beat-2dp"
-    return None
+        slack += Fr(1, 200) * max(Fr(60000) / v for _, v in st)
+        bnd1 = bnd
+        bnd = lambda t, f=bnd1, d=slack: f(t) + d
+    if not present:
+        return None
+    if notes_only is True:
+        ok = _notes_only(src, ttl, bnd, sh, dt)
+    elif notes_only == "relax-bpm":
+        ok = _notes_only(src, ttl, bnd, sh, dt) and len(st) == len(tt) and all(abs(t1 - (t2 - dt)) <= bnd(t1) for (t1, _), (t2, _) in zip(st, tt))
+    else:
+        ok = match(src, ttl, bnd, shift=sh, dt=dt) is None
+    return present[0] if ok else None
 
 
 def _tempo_off_centibeat(st):
@@ -1290,10 +1367,10 @@ def _tempo_off_centibeat(st):
     return False
 
 
-def _notes_only(stl, ttl, bound, shift=0):
+def _notes_only(stl, ttl, bound, shift=0, dt=0):
     a = {"notes": stl["notes"], "tempo": []}
     b = {"notes": ttl["notes"], "tempo": []}
-    return match(a, b, bound, shift=shift) is None
+    return match(a, b, bound, shift=shift, dt=dt) is None
 
 
 def _o2j_event_at_0(case, k):
@@ -1301,29 +1378,10 @@ def _o2j_event_at_0(case, k):
     return any(p["ch"] == 1 and p["n"] > 0 and any(s == 0 and p["m"] == 0 and bytes(bs) != b"\0\0\0\0" for s, bs in p["ev"]) for p in lv)
 
 
-CORR_ONLY = {"bms-bpm-3f-rounding"}
-
-
 def classify(case, out, kind, sub=None):
     if sub is None:
         return None
     cause = diagnose(case, out, sub)
-    if cause == "?":
-        # spec holds in python's eyes: a correspondence-only divergence.  Known: the ':.3f' tempo table of the BMS writer
-        # (a drift far below the resolution, but not the exact tempo)
-        if case["tgt"] == "bms":
-            stl = _src_tl(case, sub)
-            try:
-                ttl = tl_target(case, out["targets"][sub]["v"])
-            except Exception:
-                return None
-            st, tt = norm_tempo(stl["tempo"]), norm_tempo(ttl["tempo"])
-            if len(st) == len(tt) and any(v1 != v2 for (_, v1), (_, v2) in zip(st, tt)):
-                cause = "bms-bpm-3f-rounding"
-            else:
-                return None
-        else:
-            return None
     if cause is None:
         return None
     return f"{case['src']}->{case['tgt']}:{cause}"
